@@ -36,7 +36,7 @@ def inline_docs(tier):
     emphasis {a, space, *, _}, links {a, [, ], (, ), !}, code and escapes {a, `, \\, space}"""
     import itertools
     out = []
-    for alpha, nq, nt in (("a *_", 5, 7), ("a[]()!", 4, 6), ("a`\\ ", 4, 6), ("a*_[]`", 4, 5)):
+    for alpha, nq, nt in (("a *_", 6, 7), ("a[]()!", 4, 6), ("a`\\ ", 4, 6), ("a*_[]`", 4, 5)):
         for n in range(1, (nq if tier == "quick" else nt) + 1):
             for tup in itertools.product(alpha, repeat=n):
                 s = "".join(tup)
